@@ -1,7 +1,180 @@
-//! C01 — not built yet
-use crate::vcore::Tier;
+//! C01 — every Z80 instruction yields the architected register/flag/memory/IO result.
+//! (a) E-PROD single step from every state (z80prod), (b) sequences carrying hidden state.
 
-pub fn run(_tier: Tier, _seed: u64, _replay: Option<String>) -> i32 {
-    eprintln!("MACHINERY: check C01 is not built yet");
-    2
+use crate::rig;
+use crate::vcore::{par_for, Ctx, Tier};
+use crate::z80lock::*;
+use crate::z80prod::*;
+use refz80::RefZ80;
+use serde_json::json;
+use std::collections::HashSet;
+use std::sync::Mutex;
+
+/// Run a sequence of encodings from background `which`, each placed at the current PC, both
+/// sides carrying their own complete state. Returns digest of the final reference state.
+pub fn run_sequence(ctx: &Ctx, seq: &[(u8, u8)], which: u8, pc: u16, verbose: bool) -> u64 {
+    let first = match base_case(seq[0].0, seq[0].1, which, pc) {
+        Some(c) => c,
+        None => return 0,
+    };
+    let mut cpu = to_impl(&first.st);
+    let mut rc: RefZ80 = first.st.clone();
+    let mut ienv = first.env.clone();
+    let mut renv = first.env.clone();
+    for (k, (kind, op)) in seq.iter().enumerate() {
+        let tmpl = match base_case(*kind, *op, which, rc.pc) {
+            Some(c) => c,
+            None => return 0,
+        };
+        let at = rc.pc;
+        ienv.set_code(at, &tmpl.code[..tmpl.code_len]);
+        renv.set_code(at, &tmpl.code[..tmpl.code_len]);
+        let pre: RefZ80 = rc.clone();
+        let pre_env = renv.clone();
+        let mut ib = ImplBus::new(ienv.clone());
+        let mut rb = RBus::new(renv.clone());
+        let n = impl_macro_step(&mut cpu, &mut ib);
+        let _ = ref_macro_step(&mut rc, &mut rb);
+        let mut ist = from_impl(&cpu);
+        let mut rcn = rc.clone();
+        normalize_q(at, &mut ist, &mut rcn);
+        if verbose {
+            println!("  step {} {} {:02x} at {:04x}", k, kind_name(*kind), op, at);
+            println!("    reference: {:x?}", rc);
+            println!("    impl     : {:x?}", ist);
+            println!("    ref bus  : {}", fmt_log(rb.log.slice()));
+            println!("    impl bus : {}", fmt_log(ib.log.slice()));
+        }
+        let mut bad: Option<(String, String)> = None;
+        if n == 0 {
+            bad = Some(("prefix chain never resolves".into(), "prefix-chain".into()));
+        } else if let Some(d) = diff_states(&ist, &rcn, false) {
+            bad = Some((d, diff_fields(&ist, &rcn, false).join("+")));
+        } else if data_events(ib.log.slice()) != data_events(rb.log.slice()) {
+            bad = Some((format!("memory/port access sequence differs: impl [{}] ref [{}]", fmt_log(ib.log.slice()), fmt_log(rb.log.slice())), "bus-data".into()));
+        }
+        if let Some((what, fields)) = bad {
+            // is it a single-step defect of this encoding from the (agreed) pre-state?
+            let mut single = tmpl.clone();
+            single.st = pre.clone();
+            single.env = pre_env;
+            single.env.set_code(at, &tmpl.code[..tmpl.code_len]);
+            let single_bad = {
+                let r = run_ref(&single);
+                match run_impl(&single) {
+                    Ok(mut i) => {
+                        let mut rs = r.st.clone();
+                        normalize_q(at, &mut i.st, &mut rs);
+                        diff_states(&i.st, &rs, false).is_some() || data_events(i.log.slice()) != data_events(r.log.slice())
+                    }
+                    #[allow(unreachable_patterns)]
+                    Ok(i) => data_events(i.log.slice()) != data_events(r.log.slice()),
+                    Err(_) => true,
+                }
+            };
+            let names: Vec<String> = seq[..=k].iter().map(|(a, b)| format!("{}.{:02x}", kind_name(*a), b)).collect();
+            let key = if single_bad || k == 0 {
+                format!("C01:{}:{:02x}:{}", kind_name(*kind), op, fields)
+            } else {
+                format!("C01:seq:{}:{}", names.join(">"), fields)
+            };
+            ctx.violation(
+                &key,
+                &format!("sequence [{}] from background {}: after step {} {}", names.join(", "), which, k, what),
+                json!({"kind":"sequence","seq": seq.iter().map(|(a, b)| json!([a, b])).collect::<Vec<_>>(), "which": which, "pc": pc}),
+            );
+            return 0;
+        }
+        ienv = ib.env;
+        renv = rb.env;
+        if rc.halted || rc.pc.wrapping_sub(at) < 2 {
+            // replacing the code under a halted CPU / a repeating block instruction is not a
+            // history this harness can produce faithfully
+            break;
+        }
+    }
+    crate::vcore::fnv(&[rc.a, rc.f, rc.q, rc.r, (rc.memptr >> 8) as u8, rc.memptr as u8, rc.h, rc.l])
+}
+
+pub fn run(tier: Tier, seed: u64, replay: Option<String>) -> i32 {
+    let ctx = Ctx::new("C01", tier, seed, "model_checking");
+    if let Some(path) = replay {
+        return replay_case(&ctx, &path);
+    }
+    if let Err(e) = crate::oracle::require_valid() {
+        eprintln!("MACHINERY: reference model not validated: {}", e);
+        return 2;
+    }
+    let thorough = tier.is_thorough();
+    if thorough {
+        run_product(&ctx, Mode::Results, &[0x8000, 0xFFFE, 0x3FFF], 1 << 20, true, seed);
+    } else {
+        run_product(&ctx, Mode::Results, &[0x8000], 2048, false, seed);
+    }
+    // (b) all ordered pairs of encodings, state carried by each side itself
+    let encs = all_encodings();
+    let outcomes: Mutex<HashSet<u64>> = Mutex::new(HashSet::new());
+    let n = encs.len();
+    par_for(n, 1, |i| {
+        let mut local = HashSet::new();
+        for j in 0..n {
+            for which in 0..2u8 {
+                let h = run_sequence(&ctx, &[encs[i], encs[j]], which, 0x8000, false);
+                if local.len() < 64 {
+                    local.insert(h);
+                }
+            }
+        }
+        ctx.add_transitions(4 * n as u64);
+        ctx.add_traces(2 * n as u64);
+        outcomes.lock().unwrap().extend(local);
+    });
+    ctx.note("pairs", json!(2 * n * n));
+    // observers making hidden state visible: SCF, CCF, BIT 0,(HL), BIT 0,(IX+d), NOP
+    if thorough {
+        let obs: [(u8, u8); 5] = [(0, 0x37), (0, 0x3F), (1, 0x46), (5, 0x46), (0, 0x00)];
+        par_for(n, 1, |i| {
+            for j in 0..n {
+                for o in obs.iter() {
+                    run_sequence(&ctx, &[encs[i], encs[j], *o], 0, 0x8000, false);
+                }
+            }
+            ctx.add_transitions(15 * n as u64);
+            ctx.add_traces(5 * n as u64);
+        });
+        ctx.note("triples", json!(5 * n * n));
+    } else {
+        // quick: every encoding followed by every observer
+        let obs: [(u8, u8); 4] = [(0, 0x37), (0, 0x3F), (1, 0x46), (5, 0x46)];
+        par_for(n, 8, |i| {
+            for o in obs.iter() {
+                for which in 0..2u8 {
+                    run_sequence(&ctx, &[encs[i], *o], which, 0x8000, false);
+                }
+            }
+            ctx.add_transitions(16);
+        });
+    }
+    ctx.outcomes_bulk(&outcomes.lock().unwrap());
+    ctx.note("oracle_validation", crate::oracle::status_json());
+    ctx.finish(
+        "single step: for each of the 1786 distinct encodings (256 x {none,CB,ED,DD,FD,DDCB,FDCB} minus aliases) the read set is discovered on RefZ80 and the full product of per-atom domains is executed on Z80::emulate and RefZ80 in lock step, two contrasting backgrounds for all other atoms; sequences: all ordered pairs of encodings (and all triples ending in a hidden-state observer in thorough) with each side carrying its own state. Compared: all registers incl. alternates, PC SP I R IFF1 IFF2 IM halted MEMPTR Q and the ordered memory/port accesses with data. distinct = distinct reference outcomes",
+        true,
+        &["RefZ80 validated against zexall, z80test 1.2 (full, memptr, ccf) and z80bltst before use", "hook H1: Clone, Q latch, pending prefix"],
+    )
+}
+
+fn replay_case(ctx: &Ctx, path: &str) -> i32 {
+    let v: serde_json::Value = serde_json::from_slice(&rig::read_file(path)).expect("replay json");
+    let case = &v["case"];
+    if case["kind"] == "sequence" {
+        let seq: Vec<(u8, u8)> = case["seq"].as_array().unwrap().iter().map(|x| (x[0].as_u64().unwrap() as u8, x[1].as_u64().unwrap() as u8)).collect();
+        run_sequence(ctx, &seq, case["which"].as_u64().unwrap_or(0) as u8, case["pc"].as_u64().unwrap_or(0x8000) as u16, true);
+    } else if let Some((kind, op, c)) = case_from_json(case) {
+        println!("replay: encoding {} {:02x}, state {:x?}", kind_name(kind), op, c.st);
+        compare_case(ctx, Mode::Results, kind, op, &c, true);
+    }
+    let n = ctx.violation_classes();
+    println!("replay: {} violation class(es) reproduced", n);
+    (n > 0) as i32
 }
